@@ -84,7 +84,7 @@ class Run:
     def kani_counterexample(self, crate, module, hname, timeout, unwind_rules=None):
         """Re-run one failing harness with concrete playback and execute the playback natively."""
         res, logp = kani_unit.run_harnesses(REPO, crate, [hname], timeout_s=timeout, jobs=1, playback=True, tag="pb_" + hname,
-                                            features=self.spec.get("features", {}).get(crate), unwind_rules=unwind_rules)
+                                            features=self.spec.get("features", {}).get(crate), unwind_rules=unwind_rules, mem_gb=40)
         hr = res[hname]
         out = dict(harness=hname, crate=crate, kani_log=logp)
         if hr.playback is None:
@@ -118,7 +118,7 @@ class Run:
         tmo = max(h.timeout for h in hs)
         res, logp = kani_unit.run_harnesses(REPO, crate, names, timeout_s=tmo, jobs=jobs, tag=self.pid + "_" + st.get("tag", module),
                                             extra_args=st.get("extra_args", ()), features=self.spec.get("features", {}).get(crate),
-                                            unwind_rules=st.get("unwind_rules"))
+                                            unwind_rules=st.get("unwind_rules"), mem_gb=st.get("mem_gb"))
         self.cmds.append("cargo kani -p %s -Z stubbing -Z function-contracts --harness <h> (from /repo, HUMPHREY_VERIF=/verif); log %s" % (crate, logp))
         self.backends["kani-0.68/cbmc-6.11/cadical"] = self.backends.get("kani-0.68/cbmc-6.11/cadical", 0)
         for h in hs:
